@@ -237,6 +237,7 @@ const (
 
 // World is one simulated router with its sessions.
 type World struct {
+	wss    *router.WebsocketServer // the one websocket server of this world (shared serializers, like the real one)
 	S      *simrt.Sched
 	R      router.Router
 	Log    *ringLog
